@@ -38,8 +38,10 @@ Cap(p) == Up(Ch(p, 1)) \o SubSeq(p, 2, Len(p))
 RECURSIVE JoinCap(_)
 JoinCap(ps) == IF ps = <<>> THEN "" ELSE Cap(Head(ps)) \o JoinCap(Tail(ps))
 
-LowerCamel(s) == IF s = "_" THEN s ELSE LET p == Parts(s) IN IF p = <<>> THEN "" ELSE p[1] \o JoinCap(Tail(p))
-UpperCamel(s) == IF s = "_" THEN s ELSE JoinCap(Parts(s))
+(* a name whose camel form would be empty or start with a digit has no camel form that is an identifier: it is kept *)
+Legal(c, s) == IF c = "" \/ IsDigit(Ch(c, 1)) THEN s ELSE c
+LowerCamel(s) == IF s = "_" THEN s ELSE LET p == Parts(s) IN Legal(IF p = <<>> THEN "" ELSE p[1] \o JoinCap(Tail(p)), s)
+UpperCamel(s) == IF s = "_" THEN s ELSE Legal(JoinCap(Parts(s)), s)
 Render(s, isClass, convert) == IF ~convert THEN s ELSE IF isClass THEN UpperCamel(s) ELSE LowerCamel(s)
 
 (* dotted paths are converted segment by segment *)
@@ -81,14 +83,15 @@ ScanChar ==
   /\ i' = i + 1 /\ UNCHANGED <<name, cls, pc>>
 Finish ==
   /\ pc = "scan" /\ (name = "_" \/ i > Len(name))
-  /\ out' = IF name = "_" THEN "_" ELSE out
+  /\ out' = IF name = "_" THEN "_" ELSE IF out = "" \/ IsDigit(Ch(out, 1)) THEN name ELSE out
   /\ pc' = "done" /\ UNCHANGED <<name, cls, i, capNext, seenPart>>
 Next == ScanChar \/ Finish
 Spec == Init /\ [][Next]_vars /\ WF_vars(Next)
 
 Inv_C09_ScannerAgrees == pc = "done" => out = Render(name, cls, TRUE)
-Inv_C09_Idempotent == pc = "done" => (Render(out, cls, TRUE) = out \/ out = "")
-Inv_C09_NoUnderscoreLeft == (pc = "done" /\ name # "_") => \A j \in 1..Len(out) : Ch(out, j) # "_"
+Inv_C09_Idempotent == pc = "done" => Render(out, cls, TRUE) = out
+Inv_C09_NoUnderscoreLeft == (pc = "done" /\ out # name) => \A j \in 1..Len(out) : Ch(out, j) # "_"
+Inv_C09_AlwaysIdentifier == pc = "done" => IsPyIdent(out)
 Inv_C09_OffIsIdentity == Render(name, cls, FALSE) = name
 Live_Done == <>(pc = "done")
 Emit == (pc = "done" /\ ~cls) => PrintT(ToJson([name |-> name]))
